@@ -98,7 +98,11 @@ def _full_view(repo):
   for n in ast.walk(f0.node):
     if isinstance(n, ast.Assign) and isinstance(n.targets[0], ast.Name):
       nm = names(n.value)
-      if fd and tn and fd in nm and tn in nm:
+      txt_ = ast.unparse(n.value)
+      if tn and tn in nm and (
+              (fd and fd in nm) or
+              (An and wv and ('%s.dot(%s.ravel())' % (wv, An) in txt_ or
+                              '%s.ravel().dot(%s)' % (An, wv) in txt_))):
         roles[n.targets[0].id] = 'error2'
       if x0 and n.targets[0].id != x0 and (
               ast.unparse(n.value) == x0 or
@@ -283,8 +287,13 @@ def rule_projection_formula(repo, rep):
     if isinstance(n, ast.Assign) and isinstance(n.targets[0], ast.Name):
       defs.setdefault(n.targets[0].id, []).append(n)
   checks = []
+  # the value of the budget constraint at the projected matrix, named or
+  # written in place
+  FD = ('w.dot(A.ravel())', 'A.ravel().dot(w)', 'np.sum(w * A.ravel())')
   scal = {'t': 't', 'w_norm': 'nw', 't1': 't1', 'w1.dot(x0)': 'd',
           'fDC2': 'f'}
+  for fd_ in FD:
+    scal[fd_] = 'f'
   atoms = {'w': 'w', 'x0': 'x0', 'w1': 'w1'}
   one = Rat.const(1)
   t_, nw, t1, d_, f_ = (Rat.sym(x) for x in ('t', 'nw', 't1', 'd', 'f'))
@@ -352,9 +361,9 @@ def rule_projection_formula(repo, rep):
             'point is written back under %s, documented: when w.x0 > t'
             % conds)
   fd = defs.get('fDC2', [])
-  okf = fd and ast.unparse(fd[-1].value) in ('w.dot(A.ravel())',
-                                             'np.dot(w, A.ravel())',
-                                             'A.ravel().dot(w)')
+  er = defs.get('error2', [])
+  okf = (fd and ast.unparse(fd[-1].value) in FD) or \
+      (not fd and er and any(x in ast.unparse(er[-1].value) for x in FD))
   rep.add(R, 'mmc._BaseMMC._fit_full:fDC2', 'derived' if okf else 'unknown',
           site(f), '' if okf else 'constraint value not recognised')
 
